@@ -2,6 +2,7 @@
 # usage: try_mut.sh <patch.diff> <prop> [<prop>...]   — apply to /repo, run quick checks, revert
 P=$1; shift
 cd /repo && git apply "$P" || { echo "APPLY FAILED $P"; exit 2; }
+export VERIF_EVIDENCE_DIR=/tmp/vf-mut-evidence VERIF_REPLAY_DIR=/tmp/vf-mut-replays
 for prop in "$@"; do
   out=$(cd /verif && ./check $prop quick 2>&1 | tail -3)
   echo "[$prop] $out"
